@@ -101,6 +101,11 @@ def classify_mismatch(rec, verdict, mm):
     ref = rec.get("names", {}).get(name) or {}
     src = ref.get("src") if isinstance(ref, dict) else None
     ids = set(rec.get("entity_ids", []))
+    # a result merged into an identical earlier one (CSE) or folded is observed at the node standing for it
+    rep = rec.get("replaced") or {}
+    for _ in range(8):
+        if src and src not in ids and f"{src}_{name}_output_anchor" not in ids and src in rep:
+            src = rep[src]
     starts = set()
     if src:
         if src in ids:
@@ -213,6 +218,10 @@ def run_semantic(res, sources, opts=None, count=30, extra_case=None, label="prog
         info["proved_cells"] = sum(1 for x in cells if x.get("proved"))
         info["proved_names"] = sorted(pnames)
         stats["proved_outputs"] += len(pnames)
+        # top-level names the blueprint does not materialise: compared through the constant the final IR claims for them
+        # (`claimed`), or not comparable at all (`unobserved`: counted, and a matter for C20)
+        stats["outputs_claimed_constant"] += len(v.get("claimed") or [])
+        stats["outputs_unobserved"] += len(v.get("unobserved") or [])
         if proved:
             stats["proved_for_all_inputs"] += 1
             stats["proved_nodes"] += mt.get("bound", 0)
